@@ -76,6 +76,17 @@ class Check:
         self.obs.append(ob)
         return ob
 
+    def add_decided(self, name, ok, backend, kind="frame", func=None, meta=None, reason=None):
+        """An obligation decided by a non-SMT back end (e.g. the frame analyser's data-flow rules)."""
+        ob = I.Obligation(f"{self.pid}/{name}", [], [], z3.BoolVal(bool(ok)), kind, dict(meta or {}))
+        ob.meta["decided"] = {"status": "proved" if ok else "refuted", "backend": backend, "reason": reason}
+        if func:
+            ob.meta["func"] = func
+            self.under_contract(func)
+            self.functions[func]["obligations"] += 1
+        self.obs.append(ob)
+        return ob
+
     def chain(self, name, hyps, steps, goal, func=None, meta=None, kind="post"):
         """Lemma chain (DESIGN 4.4): each step is proved from the hypotheses and the earlier steps, then the goal from all."""
         have = []
@@ -154,7 +165,15 @@ class Check:
             self.write_evidence([], [], [], status="engine-error")
             return 3
 
-        results = solve.discharge(self.obs, timeout_s=timeout_s) if self.obs else []
+        smt_obs = [ob for ob in self.obs if "decided" not in ob.meta]
+        smt_res = iter(solve.discharge(smt_obs, timeout_s=timeout_s) if smt_obs else [])
+        results = []
+        for ob in self.obs:
+            if "decided" in ob.meta:
+                d = ob.meta["decided"]
+                results.append(solve.Result(ob.name, d["status"], d["backend"], 0.0, reason=d.get("reason"), kind=ob.kind, meta=ob.meta))
+            else:
+                results.append(next(smt_res))
         for ob, r in zip(self.obs, results):
             if ob.meta.get("signature_for"):
                 r.meta["signature_for"] = ob.meta["signature_for"]
